@@ -362,8 +362,10 @@ Definition step (fx : fixes) (s : fsys * document) (o : op) : (fsys * document) 
       if is_xml n then ((fs, mkD (cont d) (xp_cache n (xps d))), Done)
       else let '(c', ob) := c_get_part fx fs n (cont d) in
            ((fs, d_with_cont d c'), match ob with Some b => Got b | None => Err end)
-  | OTouch n => let '(d', ox) := d_tree fx fs n d in ((fs, d'), match ox with Some _ => Done | None => Err end)
-  | OEdit n x' => let '(d', ox) := d_tree fx fs n d in
+  | OTouch n => if negb (is_xml n) then (s, Err) else
+                let '(d', ox) := d_tree fx fs n d in ((fs, d'), match ox with Some _ => Done | None => Err end)
+  | OEdit n x' => if negb (is_xml n) then (s, Err) else
+                  let '(d', ox) := d_tree fx fs n d in
                   match ox with Some _ => ((fs, set_tree n x' d'), Done) | None => ((fs, d'), Err) end
   | OSetPart n b => ((fs, d_set_part fx n b d), Done)
   | ODelPart n => let '(d', ok) := d_del_part fx fs n d in ((fs, d'), if ok then Done else Err)
@@ -412,11 +414,16 @@ Fixpoint nodupb (l : list Z) : bool := match l with [] => true | x :: r => negb 
 Definition declared (es : mentries) : list name := filter (fun n => negb (is_dir n)) (map fst es).
 Definition is_file_part (fs : fsys) (d : document) (n : name) : bool :=
   negb (is_dir n) && negb (n =? MIMETYPE) && negb (n =? MANIFEST) && match bytes_of fs d n with Some _ => true | None => false end.
+(* every entry carries a media type; manifest.rdf, when listed, a non-empty one (else save deletes the part and keeps
+   the entry: F42) *)
+Definition entries_typed (es : mentries) : bool :=
+  forallb (fun e => negb (snd e =? NOMT) && negb ((fst e =? RDF) && (snd e =? EMPTYMT))) es.
 Definition PkgOK (fs : fsys) (d : document) : Prop :=
   exists xm mb, tree_of fs d MANIFEST = Some xm /\ bytes_of fs d MIMETYPE = Some mb /\
     NoDup (declared (entries xm)) /\
     (forall n, In n (declared (entries xm)) <-> is_file_part fs d n = true) /\
-    m_get ROOT (entries xm) = Some (mime mb).
+    m_get ROOT (entries xm) = Some (mime mb) /\
+    entries_typed (entries xm) = true.
 Definition PkgOKb (fs : fsys) (d : document) : bool :=
   match tree_of fs d MANIFEST, bytes_of fs d MIMETYPE with
   | Some xm, Some mb =>
@@ -424,6 +431,7 @@ Definition PkgOKb (fs : fsys) (d : document) : bool :=
       nodupb ds && forallb (is_file_part fs d) ds
       && forallb (fun n => implb (is_file_part fs d n) (memz n ds)) (names_of fs d)
       && match m_get ROOT (entries xm) with Some m => m =? mime mb | None => false end
+      && entries_typed (entries xm)
   | _, _ => false
   end.
 (* well-formed bookkeeping: dict keys are unique *)
@@ -431,15 +439,12 @@ Definition wfb (fs : fsys) (d : document) : bool :=
   nodupb (map fst (parts (cont d))) && nodupb (map fst (xps d))
   && match cpath (cont d) with Some p => match disk_entries fs p with Some es => nodupb (map fst es) | None => true end | None => true end.
 
-(* folder packaging: every part held in memory either carries the current time stamp or has no file behind it, so that
+(* folder packaging: every part held in memory carries the current time stamp (of its file, or "no file"), so that
    get_part keeps it (otherwise the next read replaces it by the file's content: F34) *)
 Definition ts_invb (fs : fsys) (d : document) : bool :=
   let c := cont d in
   match pkg c, cpath c with
-  | PFolder, Some _ =>
-      forallb (fun e => match snd e with
-                        | Some _ => memz (fst e) (tsl c) || match disk_lookup fs (cpath c) (fst e) with Some _ => false | None => true end
-                        | None => true end) (parts c)
+  | PFolder, Some _ => forallb (fun e => match snd e with Some _ => memz (fst e) (tsl c) | None => true end) (parts c)
   | _, _ => true
   end.
 
@@ -447,7 +452,8 @@ Definition ts_invb (fs : fsys) (d : document) : bool :=
 Definition WFdb (fs : fsys) (d : document) : bool :=
   nodupb (map fst (parts (cont d))) && ts_invb fs d
   && match cpath (cont d) with Some _ => negb (pk_eqb (pkg (cont d)) PXml) | None => true end
-  && forallb is_xml (map fst (xps d)).
+  && forallb is_xml (map fst (xps d))
+  && forallb (fun e => match snd e with Some _ => match bytes_of fs d (fst e) with Some _ => true | None => false end | None => true end) (xps d).
 
 (* a saved zip: first entry mimetype STORED, unique names, manifest ~ entries, "/" carries the mimetype *)
 Definition zip_names (es : list (name * bool * bytes)) : list name := map (fun e => fst (fst e)) es.
